@@ -338,10 +338,23 @@ def isQueueObj (o : String) : Bool := o.startsWith "Queue#" || o.startsWith "Pri
 /-- "ch#7:eventLoopSignal" → 7 -/
 def chanId (obj : String) : Nat := natOf (((obj.drop 3).toString.splitOn ":").headD "")
 
-def events (x : St) (l : RawLine) : Except String (St × List Ev) :=
+/-- `pers`: the program binds exactly one queue and it is a persistent (not distributed) one: the recording adapter's
+    calls are then the queue operations (enq / deq / len are logged atomically with their effect) -/
+def events (pers : Bool) (x : St) (l : RawLine) : Except String (St × List Ev) :=
   let g := l.g
   let s := x.s
   match l.tag, l.f with
+  | "A", a :: op :: rest =>
+    if !pers then .error "NA adapter-backed queue"
+    else if a != "0" then .error "NA several queues"
+    else match op, rest with
+      | "preload", _ => .ok (x, [.enq g])
+      | "enq", [_, "true"] => .ok (x, [.enq g])
+      | "deq", [_, "false"] => .ok (x, [])
+      | "deq", [_, _] => if isD s g then .ok (x, [.dDeq g]) else .ok (x, [.deqX g])
+      | "len", [_, n] => if isD s g && s.dph g == .sawRoom then .ok (x, [.dLen g (natOf n)]) else .ok (x, [])
+      | "purge", [_, n] => .ok (x, List.replicate (natOf n) (.deqX g))
+      | _, _ => .ok (x, [])
   | "A", _ => .error "NA adapter-backed queue"
   | "E", [fn, obj, op, arg, res] =>
     if obj.startsWith "worker#" && !(obj.startsWith "worker#1.") then .error "NA second worker"
@@ -384,10 +397,10 @@ def events (x : St) (l : RawLine) : Except String (St × List Ev) :=
     else .ok (x, [])
   | _, _ => .ok (x, [])
 
-def feed (st : RState St) (lineNo : Nat) (l : RawLine) : RState St :=
+def feed (pers : Bool) (st : RState St) (lineNo : Nat) (l : RawLine) : RState St :=
   match st with
   | .ok x =>
-    match events x l with
+    match events pers x l with
     | .error e => if e.startsWith "NA" then .na e else .rejected lineNo s!"{e} @ {l.tag} {l.g} {" ".intercalate l.f}"
     | .ok (x', evs) =>
       match feedAll Sig2.step x'.s evs with
@@ -407,10 +420,24 @@ structure St where
 
 def isQueueObj (o : String) : Bool := o.startsWith "Queue#" || o.startsWith "PriorityQueue#"
 
-def events (x : St) (l : RawLine) : Except String (St × List Ev) :=
+def events (pers : Bool) (x : St) (l : RawLine) : Except String (St × List Ev) :=
   let g := l.g
   let s := x.s
   match l.tag, l.f with
+  | "A", a :: op :: rest =>
+    -- one persistent (not distributed) queue: the recording adapter's calls are the queue operations (see SigMap2)
+    if !pers then .error "NA adapter-backed queue"
+    else if a != "0" then .error "NA several queues"
+    else match op, rest with
+      | "preload", _ => .ok (x, [.enq g])
+      | "enq", [_, "true"] => .ok (x, [.enq g])
+      | "deq", [_, "false"] => .ok (x, [])
+      | "deq", [_, _] => if isDisp s g then .ok (x, [.dDeq g]) else .ok (x, [.deqX g])
+      | "len", [_, n] =>
+        if isDisp s g && s.dph == .sawRoom then .ok (x, [.dLen g (natOf n)])
+        else if s.wph g == .sawStatus Wake.running then .ok (x, [.wLen g (natOf n)]) else .ok (x, [])
+      | "purge", [_, n] => .ok (x, List.replicate (natOf n) (.deqX g))
+      | _, _ => .ok (x, [])
   | "A", _ => .error "NA adapter-backed queue"
   | "E", [fn, obj, op, arg, res] =>
     if obj.startsWith "worker#" && !(obj.startsWith "worker#1.") then .error "NA second worker"
@@ -459,10 +486,10 @@ def events (x : St) (l : RawLine) : Except String (St × List Ev) :=
     else .ok (x, [])
   | _, _ => .ok (x, [])
 
-def feed (st : RState St) (lineNo : Nat) (l : RawLine) : RState St :=
+def feed (pers : Bool) (st : RState St) (lineNo : Nat) (l : RawLine) : RState St :=
   match st with
   | .ok x =>
-    match events x l with
+    match events pers x l with
     | .error e => if e.startsWith "NA" then .na e else .rejected lineNo s!"{e} @ {l.tag} {l.g} {" ".intercalate l.f}"
     | .ok (x', evs) =>
       match feedAll Wake.step x'.s evs with
